@@ -182,6 +182,8 @@ def render_expr(e, lang, sp):
         return '%s.split(%s)' % (R(e[1]), lit_text(e[2], sp.quote))
     if k == 'list':
         return '[%s]' % ', '.join(R(x) for x in e[1:])
+    if k == 'tuple':
+        return '(%s)' % ', '.join(R(x) for x in e[1:])
     if k == 'toint':
         return ('int(%s)' if lang == 'py' else 'parseInt(%s)') % R(e[1])
     if k == 'tofloat':
@@ -366,6 +368,10 @@ def ev(e, env):
         return ev(e[1], env).split(e[2])
     if k == 'list':
         return [ev(x, env) for x in e[1:]]
+    if k == 'tuple':
+        return tuple(ev(x, env) for x in e[1:])
+    if k == 'call':
+        return {'max': max, 'min': min}[e[1]](*[ev(x, env) for x in e[2:]])
     if k == 'toint':
         return int(ev(e[1], env))
     if k == 'tofloat':
@@ -514,8 +520,9 @@ def check_b_keys(q, B):
 def evaluate(q, A, B=None, a_names=None, b_names=None, limit_pull=None):
     """Reference outcome. A, B: lists of lists. Never mutates its inputs."""
     try:
+        hdr = ref_header(q, a_names, b_names)
         recs, alts, pulled = _evaluate(q, A, B, a_names, b_names)
-        return Outcome(records=recs, header=ref_header(q, a_names, b_names), alts=alts, pulled=pulled)
+        return Outcome(records=recs, header=hdr, alts=alts, pulled=pulled)
     except RefError as e:
         if q['kind'] == 'select' and q.get('top') is not None and q['top'][1] == 0 and e.cls in ('runtime', 'parsing'):
             # LIMIT 0: nothing can be output, so the input need not be read at all; an engine that does read it and
@@ -694,6 +701,14 @@ def _evaluate(q, A, B, a_names, b_names):
                         stop = True
                         break
                 else:
+                    if distinct:
+                        if order is None:
+                            guarded(nr, lambda: hash(tuple(r)))      # an unhashable field fails the query at this record
+                        else:
+                            try:
+                                hash(tuple(r))
+                            except TypeError as e:
+                                raise RefError('sort', None, repr(e))   # surfaces after the loop: outside every property
                     produced.append((skey, r))
             if stop:
                 break
@@ -763,17 +778,17 @@ def ref_header(q, a_names, b_names):
         if a_names is None:
             return None
         skip = set((c[2] - 1) if c[0] == 'f' else a_names.index(c[2]) for c in q['except_cols'])
-        return [n for i, n in enumerate(a_names) if i not in skip]
+        return (['<count>'] if q.get('distinct') == 'count' else []) + [n for i, n in enumerate(a_names) if i not in skip]
     has_alias = any(it[0] == 'alias' for it in q['items'])
     if a_names is None:
+        if has_alias and any(it[0] == 'star' for it in q['items']):
+            raise RefError('parsing', None, 'star and alias without header')
         if not has_alias:
             return None
         a_names, b_names = [], []
-    out = []
+    out = ['<count>'] if q.get('distinct') == 'count' else []     # the name of the count column is left free
     for it in q['items']:
-        out.extend(item_name(it, len(out) + 1, a_names, b_names))
-    if q.get('distinct') == 'count':
-        return ['<count>'] + out      # the name of the count column is left free
+        out.extend(item_name(it, len(out) + 1, a_names, b_names))   # K in colK = position in the output
     return out
 
 
